@@ -250,4 +250,34 @@ theorem flowsL_from (root : Str) (paddr : List Nat) (r : Bool) (pn : Str) (k : N
     · exact flowsL_from root paddr r pn (k + 1) cs h f hf
 end
 
+mutual
+theorem mermaidIdsT_length (addr : List Nat) (t : Tree) : (mermaidIdsT addr t).length = (namesT t).length := by
+  match t with
+  | .node i n a cs => simp [mermaidIdsT, namesT, mermaidIdsL_length addr 0 cs]
+theorem mermaidIdsL_length (addr : List Nat) (k : Nat) (cs : List Tree) :
+    (mermaidIdsL addr k cs).length = (namesL cs).length := by
+  match cs with
+  | [] => rfl
+  | c :: cs => simp [mermaidIdsL, namesL, mermaidIdsT_length (k :: addr) c, mermaidIdsL_length addr (k + 1) cs]
+end
+
+def Flow.target (f : Flow) : Str × Str := (f.toRef, f.toLabel)
+
+mutual
+theorem flowsT_targets (paddr : List Nat) (r : Bool) (pn : Str) (k : Nat) (t : Tree) :
+    (flowsT paddr r pn k t).map Flow.target = (mermaidIdsT (k :: paddr) t).zip (namesT t) := by
+  match t with
+  | .node i n a cs =>
+    simp only [flowsT, List.map_cons, Flow.target, mermaidIdsT, namesT, List.zip_cons_cons]
+    rw [← flowsL_targets (k :: paddr) false n 0 cs]
+theorem flowsL_targets (paddr : List Nat) (r : Bool) (pn : Str) (k : Nat) (cs : List Tree) :
+    (flowsL paddr r pn k cs).map Flow.target = (mermaidIdsL paddr k cs).zip (namesL cs) := by
+  match cs with
+  | [] => rfl
+  | c :: cs =>
+    simp only [flowsL, List.map_append, mermaidIdsL, namesL]
+    rw [flowsT_targets paddr r pn k c, flowsL_targets paddr r pn (k + 1) cs,
+      List.zip_append (mermaidIdsT_length (k :: paddr) c)]
+end
+
 end Render
